@@ -223,24 +223,14 @@ func runDisk18(r *Run) int {
 			}
 			relNew, _ := filepath.Rel(base, realNew)
 			origBuild, origErr := diskBuild(target)
-			cls, msg, dst := kOk, "", ""
-			func() {
-				defer func() {
-					if rec := recover(); rec != nil {
-						if fsn, ok := rec.(fatalSentinel); ok {
-							cls, msg = kFatal, fsn.msg
-							return
-						}
-						cls, msg = kPanic, fmt.Sprint(rec)
-					}
-				}()
+			dst := ""
+			cls, msg := runTrapped(func() error {
 				d, err := localizer.Run(filesys.MakeFsOnDisk(), target, scope, newDir)
-				if err != nil {
-					cls, msg = kErr, err.Error()
-					return
+				if err == nil {
+					dst = d
 				}
-				dst = d
-			}()
+				return err
+			})
 			after := diskSnapshot(base)
 			r.Count("ondisk-tree", dt.name+":"+cls)
 			r.AddEval("ondisk|"+dt.name, true)
